@@ -5,7 +5,7 @@ package rules
 // Files: c19.go (registration, sensitivity suite, layout table, model), c19_scan.go and c19_cycles.go (M1, M2: loops and
 // neighbour scans, decided on the CFG), c19_order.go, c19_order2.go, c19_roles.go (M6: classification of states by time in the binary search, its
 // caller and the lower-bound finder), c19_complete.go (M7: completeness of the lower-bound finder), c19_exits.go (one-line predicates looked through,
-// loops described by their exits), c19_interp.go (abstract evaluator), c19_eval.go (M3–M5: decision and
+// loops described by their exits), c19_probe.go (how the binary-search loop obtains its probed state: own fetch or probe helper), c19_interp.go (abstract evaluator), c19_eval.go (M3–M5: decision and
 // formatting functions evaluated over their finite abstract domain), c19_variants.go (behaviour-preserving variants).
 //
 // Anchors. Everything is resolved from exported API and roles, never from the name or the place of an
@@ -52,7 +52,7 @@ func init() {
 		Title: "Replication state lookup by time terminates with the first state at or after t",
 		Explanation: "Necessary conditions, decided on package replication for everything statically reachable from the four (*Datasource).…StateAt lookups. " +
 			"(M1) every atomic part of what keeps a `for` loop running (its condition and the negated guards of leading `if … { break/return }`) depends on a variable the loop body assigns (a loop-invariant part bounds nothing); a `for { … }` that has neither is described by its exits (return / own break) instead: it has one, and every atomic condition of the enclosing ifs an exit is taken under depends on a variable the body assigns; range loops run over finite values. " +
-			"(M2) for the binary-search loop (kept running by lo.SeqNum… < hi.SeqNum) and each neighbour scan over missing state files (a `for` with one state fetch, nested in it or in a function it calls; the fetch is recognised through wrapper functions): the scanned variable starts one step from the probed middle, is the variable probed, is stepped once, after the probe, in the direction of its start on every way round the loop that found nothing; the probe is controlled inside the loop by a comparison that is `lo.SeqNum < v` (down) / `v < hi.SeqNum` (up) in integer normal form (an off-by-one in either direction is reported); once a state is found neither the same probe nor another scan is reachable (CFG walk with the nil tests decided); both directions exist; and when every probe of one iteration finds nothing the only way on is `return hi`, like every other success return reachable from the loop. So every probe lies strictly between the bounds, the neighbours next to both bounds are probed, and a scan costs at most one request per missing file. " +
+			"(M2) for the binary-search loop (kept running by lo.SeqNum… < hi.SeqNum, obtaining one probed state per iteration by a fetch of the middle in its body or through a probe helper, a function that makes that fetch outside any loop and may hold the scans) and each neighbour scan over missing state files (a `for` with one state fetch, nested in the loop or in a function it calls; the fetch is recognised through wrapper functions): when the middle is found no scan runs; the scanned variable starts one step from the probed middle, is the variable probed, is stepped once, after the probe, in the direction of its start on every way round the loop that found nothing; the probe is controlled inside the loop by a comparison that is `lo.SeqNum < v` (down) / `v < hi.SeqNum` (up) in integer normal form (an off-by-one in either direction is reported); once a state is found neither the same probe nor another scan is reachable (CFG walk with the nil tests decided); both directions exist; and when every probe of one iteration finds nothing the only way on is `return hi`, like every other success return reachable from the loop. So every probe lies strictly between the bounds, the neighbours next to both bounds are probed, and a scan costs at most one request per missing file. " +
 			"(M3) evaluated over kind × sequence number × HTTP status × error: every exported state/data/current-state fetcher requests, as its first request, exactly the URL tables/replication.json gives (path format, three zero-padded decimal digit groups, suffix per file kind, current-state file for sequence number 0, base URL of its own datasource); Dir() values; the function the state decoders parse timestamps with returns the right instant for the planet's timestamp forms (escaped colons); NotFound is true exactly for a status error with code 404; with a 404 response every state/data fetcher returns an error satisfying NotFound, with 500/403 an error that does not, with 200 no status error. " +
 			"(M4) changeset state off-by-one, evaluated: the current state reports the parsed `sequence:` value +1 (and returns that number), a numbered state reports the number requested. " +
 			"(M5) evaluated: each lookup and its package-level delegate calls the search exactly once with the caller's ctx and timestamp, returns the state found together with K(state.SeqNum) of its own kind, propagates the error; the descriptor's functions request the current/numbered state files of the lookup's own kind on the lookup's own datasource (the default datasource for the delegates); the minimum sequence number is a constant >= 1. " +
@@ -134,6 +134,11 @@ var c19Mutants = []core.Mutant{
 	// M7 (the pinned tree itself violates M7 under the three known constructs; these add further sites)
 	{Name: "m7-second-narrowing-site", File: "replication/search.go", Find: "\t\tlowerID = newID\n", Replace: "\t\tlowerID = newID\n\t\tif lowerID < upper.SeqNum/4 {\n\t\t\tlowerID = upper.SeqNum / 4\n\t\t}\n", ExpectRule: "M7", ExpectConstruct: "narrow-on-missing@findBound#2"},
 	{Name: "m7-second-give-up", File: "replication/search.go", Find: "\t\t// no lower yet, so try a higher id (binary search wise)\n", Replace: "\t\tif lowerID > 1000 {\n\t\t\treturn upper, upper, nil\n\t\t}\n\t\t// no lower yet, so try a higher id (binary search wise)\n", ExpectRule: "M7", ExpectConstruct: "give-up@findBound returns-upper#2"},
+	// defects seeded into the helper form (probe of the middle and neighbour scans in one function)
+	{Name: "m2-helper-scan-bound-one-short", File: "replication/search.go", Find: "func findInRange(ctx context.Context, s *stater, lower, upper *State, timestamp time.Time) (*State, error) {\n\t// we do a binary search through the range to find the sequence number\n\tfor lower.SeqNum+1 < upper.SeqNum {\n\t\t// could do better here\n\t\tsplitID := (lower.SeqNum + upper.SeqNum) / 2\n\n\t\tsplit, err := s.State(ctx, splitID)\n\t\tif err != nil && !NotFound(err) {\n\t\t\treturn nil, err\n\t\t}\n\n\t\tif split == nil {\n\t\t\t// file missing, search the next towards lower\n\t\t\tsID := splitID - 1\n\n\t\t\tfor split == nil && lower.SeqNum < sID {\n\t\t\t\tsplit, err = s.State(ctx, sID)\n\t\t\t\tif err != nil && !NotFound(err) {\n\t\t\t\t\treturn nil, err\n\t\t\t\t}\n\n\t\t\t\tsID--\n\t\t\t}\n\t\t}\n\n\t\tif split == nil {\n\t\t\t// still missing? search the next towards upper\n\t\t\tsID := splitID + 1\n\n\t\t\tfor split == nil && sID < upper.SeqNum {\n\t\t\t\tsplit, err = s.State(ctx, sID)\n\t\t\t\tif err != nil && !NotFound(err) {\n\t\t\t\t\treturn nil, err\n\t\t\t\t}\n\n\t\t\t\tsID++\n\t\t\t}\n\t\t}\n\n\t\tif split == nil {\n\t\t\t// nothing between lower and upper, so upper is\n\t\t\t// the first state at or after the timestamp.\n\t\t\treturn upper, nil\n\t\t}\n\n\t\t// set the new boundary\n\t\tif timestamp.After(split.Timestamp) {\n\t\t\tlower = split\n\t\t} else {\n\t\t\tupper = split\n\t\t}\n\t}\n\n\t// timestamp is now between lower and upper, we want to return the upper.\n\treturn upper, nil\n}\n", Replace: "func findInRange(ctx context.Context, s *stater, lower, upper *State, timestamp time.Time) (*State, error) {\n\t// we do a binary search through the range to find the sequence number\n\tfor lower.SeqNum+1 < upper.SeqNum {\n\t\t// could do better here\n\t\tsplitID := (lower.SeqNum + upper.SeqNum) / 2\n\n\t\tsplit, err := nearestState(ctx, s, lower.SeqNum, splitID, upper.SeqNum)\n\t\tif err != nil {\n\t\t\treturn nil, err\n\t\t}\n\n\t\tif split == nil {\n\t\t\t// nothing between lower and upper, so upper is\n\t\t\t// the first state at or after the timestamp.\n\t\t\treturn upper, nil\n\t\t}\n\n\t\t// set the new boundary\n\t\tif timestamp.After(split.Timestamp) {\n\t\t\tlower = split\n\t\t} else {\n\t\t\tupper = split\n\t\t}\n\t}\n\n\t// timestamp is now between lower and upper, we want to return the upper.\n\treturn upper, nil\n}\n\n// nearestState returns the state at splitID or, if that file is missing, the first available one stepping\n// down towards lowerID and after that stepping up towards upperID, both exclusive.\nfunc nearestState(ctx context.Context, s *stater, lowerID, splitID, upperID uint64) (*State, error) {\n\tsplit, err := s.State(ctx, splitID)\n\tif err != nil && !NotFound(err) {\n\t\treturn nil, err\n\t}\n\tif split != nil {\n\t\treturn split, nil\n\t}\n\n\t// file missing, search the next towards lower\n\tfor id := splitID - 1; lowerID+1 < id; id-- {\n\t\tsplit, err = s.State(ctx, id)\n\t\tif err != nil && !NotFound(err) {\n\t\t\treturn nil, err\n\t\t}\n\t\tif split != nil {\n\t\t\treturn split, nil\n\t\t}\n\t}\n\n\t// still missing? search the next towards upper\n\tfor id := splitID + 1; id < upperID; id++ {\n\t\tsplit, err = s.State(ctx, id)\n\t\tif err != nil && !NotFound(err) {\n\t\t\treturn nil, err\n\t\t}\n\t\tif split != nil {\n\t\t\treturn split, nil\n\t\t}\n\t}\n\n\treturn nil, nil\n}\n", ExpectRule: "M2", ExpectConstruct: "scan-down@findInRange bound"},
+	{Name: "m2-helper-returns-on-first-404", File: "replication/search.go", Find: "func findInRange(ctx context.Context, s *stater, lower, upper *State, timestamp time.Time) (*State, error) {\n\t// we do a binary search through the range to find the sequence number\n\tfor lower.SeqNum+1 < upper.SeqNum {\n\t\t// could do better here\n\t\tsplitID := (lower.SeqNum + upper.SeqNum) / 2\n\n\t\tsplit, err := s.State(ctx, splitID)\n\t\tif err != nil && !NotFound(err) {\n\t\t\treturn nil, err\n\t\t}\n\n\t\tif split == nil {\n\t\t\t// file missing, search the next towards lower\n\t\t\tsID := splitID - 1\n\n\t\t\tfor split == nil && lower.SeqNum < sID {\n\t\t\t\tsplit, err = s.State(ctx, sID)\n\t\t\t\tif err != nil && !NotFound(err) {\n\t\t\t\t\treturn nil, err\n\t\t\t\t}\n\n\t\t\t\tsID--\n\t\t\t}\n\t\t}\n\n\t\tif split == nil {\n\t\t\t// still missing? search the next towards upper\n\t\t\tsID := splitID + 1\n\n\t\t\tfor split == nil && sID < upper.SeqNum {\n\t\t\t\tsplit, err = s.State(ctx, sID)\n\t\t\t\tif err != nil && !NotFound(err) {\n\t\t\t\t\treturn nil, err\n\t\t\t\t}\n\n\t\t\t\tsID++\n\t\t\t}\n\t\t}\n\n\t\tif split == nil {\n\t\t\t// nothing between lower and upper, so upper is\n\t\t\t// the first state at or after the timestamp.\n\t\t\treturn upper, nil\n\t\t}\n\n\t\t// set the new boundary\n\t\tif timestamp.After(split.Timestamp) {\n\t\t\tlower = split\n\t\t} else {\n\t\t\tupper = split\n\t\t}\n\t}\n\n\t// timestamp is now between lower and upper, we want to return the upper.\n\treturn upper, nil\n}\n", Replace: "func findInRange(ctx context.Context, s *stater, lower, upper *State, timestamp time.Time) (*State, error) {\n\t// we do a binary search through the range to find the sequence number\n\tfor lower.SeqNum+1 < upper.SeqNum {\n\t\t// could do better here\n\t\tsplitID := (lower.SeqNum + upper.SeqNum) / 2\n\n\t\tsplit, err := nearestState(ctx, s, lower.SeqNum, splitID, upper.SeqNum)\n\t\tif err != nil {\n\t\t\treturn nil, err\n\t\t}\n\n\t\tif split == nil {\n\t\t\t// nothing between lower and upper, so upper is\n\t\t\t// the first state at or after the timestamp.\n\t\t\treturn upper, nil\n\t\t}\n\n\t\t// set the new boundary\n\t\tif timestamp.After(split.Timestamp) {\n\t\t\tlower = split\n\t\t} else {\n\t\t\tupper = split\n\t\t}\n\t}\n\n\t// timestamp is now between lower and upper, we want to return the upper.\n\treturn upper, nil\n}\n\n// nearestState returns the state at splitID, nil if that file is missing.\nfunc nearestState(ctx context.Context, s *stater, lowerID, splitID, upperID uint64) (*State, error) {\n\tsplit, err := s.State(ctx, splitID)\n\tif err != nil && !NotFound(err) {\n\t\treturn nil, err\n\t}\n\treturn split, nil\n}\n", ExpectRule: "M2", ExpectConstruct: "neighbour scans"},
+	{Name: "m2-helper-scans-although-middle-found", File: "replication/search.go", Find: "func findInRange(ctx context.Context, s *stater, lower, upper *State, timestamp time.Time) (*State, error) {\n\t// we do a binary search through the range to find the sequence number\n\tfor lower.SeqNum+1 < upper.SeqNum {\n\t\t// could do better here\n\t\tsplitID := (lower.SeqNum + upper.SeqNum) / 2\n\n\t\tsplit, err := s.State(ctx, splitID)\n\t\tif err != nil && !NotFound(err) {\n\t\t\treturn nil, err\n\t\t}\n\n\t\tif split == nil {\n\t\t\t// file missing, search the next towards lower\n\t\t\tsID := splitID - 1\n\n\t\t\tfor split == nil && lower.SeqNum < sID {\n\t\t\t\tsplit, err = s.State(ctx, sID)\n\t\t\t\tif err != nil && !NotFound(err) {\n\t\t\t\t\treturn nil, err\n\t\t\t\t}\n\n\t\t\t\tsID--\n\t\t\t}\n\t\t}\n\n\t\tif split == nil {\n\t\t\t// still missing? search the next towards upper\n\t\t\tsID := splitID + 1\n\n\t\t\tfor split == nil && sID < upper.SeqNum {\n\t\t\t\tsplit, err = s.State(ctx, sID)\n\t\t\t\tif err != nil && !NotFound(err) {\n\t\t\t\t\treturn nil, err\n\t\t\t\t}\n\n\t\t\t\tsID++\n\t\t\t}\n\t\t}\n\n\t\tif split == nil {\n\t\t\t// nothing between lower and upper, so upper is\n\t\t\t// the first state at or after the timestamp.\n\t\t\treturn upper, nil\n\t\t}\n\n\t\t// set the new boundary\n\t\tif timestamp.After(split.Timestamp) {\n\t\t\tlower = split\n\t\t} else {\n\t\t\tupper = split\n\t\t}\n\t}\n\n\t// timestamp is now between lower and upper, we want to return the upper.\n\treturn upper, nil\n}\n", Replace: "func findInRange(ctx context.Context, s *stater, lower, upper *State, timestamp time.Time) (*State, error) {\n\t// we do a binary search through the range to find the sequence number\n\tfor lower.SeqNum+1 < upper.SeqNum {\n\t\t// could do better here\n\t\tsplitID := (lower.SeqNum + upper.SeqNum) / 2\n\n\t\tsplit, err := nearestState(ctx, s, lower.SeqNum, splitID, upper.SeqNum)\n\t\tif err != nil {\n\t\t\treturn nil, err\n\t\t}\n\n\t\tif split == nil {\n\t\t\t// nothing between lower and upper, so upper is\n\t\t\t// the first state at or after the timestamp.\n\t\t\treturn upper, nil\n\t\t}\n\n\t\t// set the new boundary\n\t\tif timestamp.After(split.Timestamp) {\n\t\t\tlower = split\n\t\t} else {\n\t\t\tupper = split\n\t\t}\n\t}\n\n\t// timestamp is now between lower and upper, we want to return the upper.\n\treturn upper, nil\n}\n\n// nearestState returns the state at splitID or, if that file is missing, the first available one stepping\n// down towards lowerID and after that stepping up towards upperID, both exclusive.\nfunc nearestState(ctx context.Context, s *stater, lowerID, splitID, upperID uint64) (*State, error) {\n\tsplit, err := s.State(ctx, splitID)\n\tif err != nil && !NotFound(err) {\n\t\treturn nil, err\n\t}\n\tmiddle := split\n\n\t// file missing, search the next towards lower\n\tfor id := splitID - 1; lowerID < id; id-- {\n\t\tsplit, err = s.State(ctx, id)\n\t\tif err != nil && !NotFound(err) {\n\t\t\treturn nil, err\n\t\t}\n\t\tif split != nil {\n\t\t\treturn split, nil\n\t\t}\n\t}\n\n\t// still missing? search the next towards upper\n\tfor id := splitID + 1; id < upperID; id++ {\n\t\tsplit, err = s.State(ctx, id)\n\t\tif err != nil && !NotFound(err) {\n\t\t\treturn nil, err\n\t\t}\n\t\tif split != nil {\n\t\t\treturn split, nil\n\t\t}\n\t}\n\n\treturn middle, nil\n}\n", ExpectRule: "M2", ExpectConstruct: "scans@findInRange middle"},
+	{Name: "m6-helper-equal-becomes-lower", File: "replication/search.go", Find: "func findInRange(ctx context.Context, s *stater, lower, upper *State, timestamp time.Time) (*State, error) {\n\t// we do a binary search through the range to find the sequence number\n\tfor lower.SeqNum+1 < upper.SeqNum {\n\t\t// could do better here\n\t\tsplitID := (lower.SeqNum + upper.SeqNum) / 2\n\n\t\tsplit, err := s.State(ctx, splitID)\n\t\tif err != nil && !NotFound(err) {\n\t\t\treturn nil, err\n\t\t}\n\n\t\tif split == nil {\n\t\t\t// file missing, search the next towards lower\n\t\t\tsID := splitID - 1\n\n\t\t\tfor split == nil && lower.SeqNum < sID {\n\t\t\t\tsplit, err = s.State(ctx, sID)\n\t\t\t\tif err != nil && !NotFound(err) {\n\t\t\t\t\treturn nil, err\n\t\t\t\t}\n\n\t\t\t\tsID--\n\t\t\t}\n\t\t}\n\n\t\tif split == nil {\n\t\t\t// still missing? search the next towards upper\n\t\t\tsID := splitID + 1\n\n\t\t\tfor split == nil && sID < upper.SeqNum {\n\t\t\t\tsplit, err = s.State(ctx, sID)\n\t\t\t\tif err != nil && !NotFound(err) {\n\t\t\t\t\treturn nil, err\n\t\t\t\t}\n\n\t\t\t\tsID++\n\t\t\t}\n\t\t}\n\n\t\tif split == nil {\n\t\t\t// nothing between lower and upper, so upper is\n\t\t\t// the first state at or after the timestamp.\n\t\t\treturn upper, nil\n\t\t}\n\n\t\t// set the new boundary\n\t\tif timestamp.After(split.Timestamp) {\n\t\t\tlower = split\n\t\t} else {\n\t\t\tupper = split\n\t\t}\n\t}\n\n\t// timestamp is now between lower and upper, we want to return the upper.\n\treturn upper, nil\n}\n", Replace: "func findInRange(ctx context.Context, s *stater, lower, upper *State, timestamp time.Time) (*State, error) {\n\t// we do a binary search through the range to find the sequence number\n\tfor lower.SeqNum+1 < upper.SeqNum {\n\t\t// could do better here\n\t\tsplitID := (lower.SeqNum + upper.SeqNum) / 2\n\n\t\tsplit, err := nearestState(ctx, s, lower.SeqNum, splitID, upper.SeqNum)\n\t\tif err != nil {\n\t\t\treturn nil, err\n\t\t}\n\n\t\tif split == nil {\n\t\t\t// nothing between lower and upper, so upper is\n\t\t\t// the first state at or after the timestamp.\n\t\t\treturn upper, nil\n\t\t}\n\n\t\t// set the new boundary\n\t\tif split.Timestamp.After(timestamp) {\n\t\t\tupper = split\n\t\t} else {\n\t\t\tlower = split\n\t\t}\n\t}\n\n\t// timestamp is now between lower and upper, we want to return the upper.\n\treturn upper, nil\n}\n\n// nearestState returns the state at splitID or, if that file is missing, the first available one stepping\n// down towards lowerID and after that stepping up towards upperID, both exclusive.\nfunc nearestState(ctx context.Context, s *stater, lowerID, splitID, upperID uint64) (*State, error) {\n\tsplit, err := s.State(ctx, splitID)\n\tif err != nil && !NotFound(err) {\n\t\treturn nil, err\n\t}\n\tif split != nil {\n\t\treturn split, nil\n\t}\n\n\t// file missing, search the next towards lower\n\tfor id := splitID - 1; lowerID < id; id-- {\n\t\tsplit, err = s.State(ctx, id)\n\t\tif err != nil && !NotFound(err) {\n\t\t\treturn nil, err\n\t\t}\n\t\tif split != nil {\n\t\t\treturn split, nil\n\t\t}\n\t}\n\n\t// still missing? search the next towards upper\n\tfor id := splitID + 1; id < upperID; id++ {\n\t\tsplit, err = s.State(ctx, id)\n\t\tif err != nil && !NotFound(err) {\n\t\t\treturn nil, err\n\t\t}\n\t\tif split != nil {\n\t\t\treturn split, nil\n\t\t}\n\t}\n\n\treturn nil, nil\n}\n", ExpectRule: "M6", ExpectConstruct: "order@findInRange lower"},
 	// M3
 	{Name: "m3-format-two-digit-leaf", File: "replication/changesets.go", Find: "%03d/%03d/%03d", Replace: "%03d/%03d/%02d", ExpectRule: "M3", ExpectConstruct: "url@(*Datasource).ChangesetState [state]"},
 	{Name: "m3-level2-modulus", File: "replication/interval.go", Find: "(n%1000000)/1000", Replace: "(n%100000)/1000", ExpectRule: "M3", ExpectConstruct: "url@(*Datasource).MinuteState [state]"},
